@@ -51,4 +51,11 @@ theorem findUtxos_dedupe_before_maturity_tie : findUtxosAppend =
      "if u.ValidHeight > currentHeight { immatureAmount += u.Amount } else { utxos = append(utxos, u) }"] ∧
     findUtxosListingOrder = ["for utxoIter.Next()", "if !useUnconfirmed return", "range uk.unconfirmed"] := by decide
 
+
+/-- a rescan (and the first load) clears WorkHash ONLY: BestHash / BestHeight keep naming the
+    chain whose blocks the UTXO records reflect, so blocks that leave the main chain during the
+    replay are still detached -/
+theorem rescan_resets_work_only_tie : statusWrites_setRescanStatus = ["w.status.WorkHash = bc.Hash{}"] ∧
+    statusWrites_loadWalletInfo = ["w.status.Version = currentVersion", "w.status.WorkHash = bc.Hash{}"] := by decide
+
 end BytomModel.Ties.C25
